@@ -91,7 +91,9 @@ def link_so(dst, objs, name="libcrypt.so.1"):
 
 def build_harness(dst, src, objs, out, repo=REPO, cc="gcc", opt=("-O1", "-g"), extra=(), ldextra=()):
     r = subprocess.run([cc] + cflags(dst, repo, extra) + list(opt) + ["-I/verif/harness", src] + objs +
-                       ["-o", out, "-lpthread"] + list(ldextra), text=True, capture_output=True)
+                       # -z now: no lazy-binding trampolines (they spill every vector register, i.e. whatever libc's string
+                       # functions last loaded, onto the stack in the middle of a call: false alarms for the C09 stack scan)
+                       ["-o", out, "-lpthread", "-Wl,-z,now"] + list(ldextra), text=True, capture_output=True)
     if r.returncode != 0:
         raise RuntimeError("harness build failed: " + r.stderr[-4000:])
     return out
